@@ -1,4 +1,5 @@
 """C02: and/or/xor combinations are pointwise Boolean algebra with null as identity; operands never altered."""
+import copy
 from collections import Counter
 
 from .. import coqenc as E
@@ -7,6 +8,7 @@ from ..runner import jval, unjval
 from ..valgen import Gen, copy_value
 from ..condgen import CondGen
 from ..terms import Leaf, Null, Bin, valida
+from ..specgen import SpecGen, normalise_cond, d12_flag
 
 PROP = "C02"
 IMPORTS = "Py Lang Defs Cond Dsl Check DocSem Inst"
@@ -134,17 +136,60 @@ def corpus():
     return out
 
 
+def spec_corpus():
+    """and / or / xor lists whose operands are == to each other without behaving alike (range bounds 0 / 0.0: known finding of C14),
+    or are the same operand twice: every listed operand counts."""
+    docs = [[0, 1, 2, 7, "a"], {"a": 1, "b": 7}]
+    out = []
+    for m in ("in_range", "not_in_range"):
+        for lo, lo2 in ((0, 0.0), (0.0, 0), (1, True), (1, 1)):
+            for op in ("and", "or", "xor"):
+                for extra in ([], [Leaf("Value", "less_than", [5])]):
+                    ops = [Leaf("Value", m, [lo, 5]), Leaf("Value", m, [lo2, 5])] + extra
+                    t = Bin(op, ops[0], ops[1])
+                    for e in ops[2:]:
+                        t = Bin(op, t, e)
+                    out += [(t, d) for d in docs]
+    return out
+
+
+def spec_route(sg, t, doc, spec_viol, counts):
+    """The spec-list route: {"and": [a, b, ...]} (same-operator spines flattened) gives what the operators give."""
+    tn = copy.deepcopy(t)
+    normalise_cond(tn)
+    sp = sg.cond_spec(tn) if tn.size() > 1 and not d12_flag(tn.leaves()) else None
+    try:
+        parsed = valida().conditions.ConditionLike.from_spec(copy.deepcopy(sp)) if sp is not None else None
+    except Exception:
+        parsed = None         # whether a spelling is accepted is C09's business
+    if parsed is None:
+        return
+    counts["spec"] += 1
+    want = E.run_outcome(lambda: impl_filter(tn, copy_value(doc)))
+    got = E.run_outcome(lambda: obs(parsed.filter(copy_value(doc))))
+    if got != want:
+        spec_viol.append({"kind": "spec-list", "what": "a combination written as a spec list filters differently from the "
+                          "same combination built with operators", "descr": tn.descr()[:300], "spec": repr(sp)[:400],
+                          "doc": jval(doc), "operators": repr(want)[:200], "spec_list": repr(got)[:200]})
+
+
 def run(tier, seed, model_ok, spec_ok, replay=None):
     g = Gen(seed)
     cg = CondGen(g)
     hist_viol, hist_steps, hist_n = [], 0, 0
+    sg = SpecGen(g)
+    spec_viol, counts = [], Counter()
     if replay and replay["case"].get("kind") != "history":
         j = replay["case"]
         cases = [make_case(term_from_json(j["term"]), unjval(j["doc"]))]
     else:
         n = 500 if tier == "quick" else 12000
         cases = [make_case(t, d) for t, d in corpus()]
-        for _ in range(n):
+        todo = [(t, d) for t, d in spec_corpus()] + [None] * n
+        for item in todo:
+            if item is not None:
+                spec_route(sg, item[0], item[1], spec_viol, counts)
+                continue
             doc = g.document(3, 5)
             k = g.r.random()
             classes = None
@@ -156,6 +201,8 @@ def run(tier, seed, model_ok, spec_ok, replay=None):
                 classes = ["Value", "ValueLength", "ValueDataType"]
             t = cg.tree(doc, depth=g.r.choice([1, 2, 2, 3, 3, 4] if tier == "quick" else [1, 2, 3, 3, 4, 5, 6]), classes=classes, null_p=0.2)
             cases.append(make_case(t, doc))
+            # the spec-list route: {"and": [a, b, ...]} (same-operator spines flattened) gives what the operators give
+            spec_route(sg, t, doc, spec_viol, counts)
         cases = [c for c in cases if c]
         nh = 150 if tier == "quick" else 4000
         for _ in range(nh):
@@ -171,7 +218,7 @@ def run(tier, seed, model_ok, spec_ok, replay=None):
         dist["outcome:" + (c.outcome[1] if c.outcome[0] == "exc" else "ok")] += 1
     distinct = {c.key for c in cases if c.nontrivial}
     res = {
-        "evaluations": len(cases) + hist_steps, "k_cases": nk, "o_cases": no + hist_steps,
+        "evaluations": len(cases) + hist_steps, "k_cases": nk, "o_cases": no + hist_steps + counts["spec"],
         "nontrivial": len(distinct),
         "rule": "random and/or/xor trees (depth <= 4 quick / 6 thorough, null operands with p=0.2 in every position, "
                 "value-kind mixed with key- or index-kind) x documents, plus construction histories over a pool of "
@@ -179,8 +226,8 @@ def run(tier, seed, model_ok, spec_ok, replay=None):
                 "non-trivial = a tree with >= 1 operator whose result vector is not constant, distinct by term",
         "samples": [c.descr for c in cases[-3:]],
         "k_mismatch": [cases[i].descr for i in k_bad],
-        "o_violations": [cases[i].descr for i in o_bad] + hist_viol,
-        "distribution": dict(dist, histories=hist_n, history_steps=hist_steps),
+        "o_violations": [cases[i].descr for i in o_bad] + hist_viol + spec_viol,
+        "distribution": dict(dist, histories=hist_n, history_steps=hist_steps, spec_lists=counts["spec"]),
     }
     if err:
         res["k_mismatch"] = res["k_mismatch"] or [{"coq-eval-error": err}]
